@@ -13,6 +13,7 @@
 #  along with this program; if not, write to the Free Software
 #  Foundation, Inc., 51 Franklin Street, Fifth Floor, Boston, MA  02110-1301, USA.
 
+import io
 import marshal
 import os.path as osp
 import py_compile
@@ -326,7 +327,11 @@ def load_module_from_file_object(
                 elif fast_load:
                     co = xdis.marsh.load(fp, magicint2version[magic_int])
                 else:
-                    co = xdis.unmarshal.load_code(fp, magic_int, code_objects)
+                    # Read the rest of the file first: a corrupt length field then
+                    # yields a short read instead of a huge buffer allocation.
+                    co = xdis.unmarshal.load_code(
+                        io.BytesIO(fp.read()), magic_int, code_objects
+                    )
                 pass
             else:
                 co = None
